@@ -562,6 +562,7 @@ func (w *world) scenarioTakeover(ep int) {
 		if c := w.reg(target, claimedIdx); c != nil && rd.link != nil && linkOf(c) == rd.link {
 			simrt.Probe("c32_reconnected_connection_registered")
 		}
+		w.checkHeldConnectionRegistered(rd, target, claimedIdx)
 		simrt.Eventf("takeover %s: ack=%v sent=%d link=%d; closing", name, rd.gotAck, rd.sentOK, linkID(rd.link))
 		rd.close()
 		w.failLeft[w.m.Nodes[claimedIdx].Name] = 0
@@ -657,10 +658,31 @@ func (w *world) scenarioKeepaliveTakeover(ep int) {
 	if c := w.reg(x, p); c != nil && rd.link != nil && linkOf(c) == rd.link {
 		simrt.Probe("c32_reconnected_at_keepalive_teardown_registered")
 	}
+	w.checkHeldConnectionRegistered(rd, x, p)
 	simrt.Eventf("keepalive takeover %s: ack=%v sent=%d link=%d; closing", name, rd.gotAck, rd.sentOK, linkID(rd.link))
 	rd.close()
 	l.Reset()
 	w.failLeft = map[string]int{}
+}
+
+// R3a for a connection whose whole registered life may fall between two polls:
+// the agent completed the handshake of rd's connection and still holds it open
+// (it neither rejected nor closed it), so that connection is the agent's current
+// connection to the identity; the identity must then be registered.
+func (w *world) checkHeldConnectionRegistered(rd *rawDup, x, p int) {
+	if rd.dialErr != nil || !rd.gotAck || !w.dupStillOpen(rd) {
+		return
+	}
+	simrt.Probe("c32_reconnected_connection_still_open")
+	c := w.reg(x, p)
+	if c == nil {
+		simrt.Failf("registration-lost-while-connection-open", "the registered connection of a peer was deregistered or replaced although it has not been closed",
+			"%s completed the handshake with %s (as %s) on link %d and still holds that connection open, but no connection is registered for %s",
+			w.m.Nodes[x].Name, rd.name, w.m.Nodes[p].Name, linkID(rd.link), w.m.Nodes[p].Name)
+	}
+	if linkOf(c) != rd.link {
+		simrt.Probe("c32_two_open_connections_one_registered")
+	}
 }
 
 // controlMarker shows that the marker announcement used by the raw duplicates
